@@ -56,4 +56,19 @@ TEXTS["C09"] = dict(
                "requests below 2^63 are signed: equal consecutive sources, genesis 0/0, values at 2^63-1); the rules wrapper counts evaluations per index (exactly once). "
                "util.Scatter is enumerated completely for n in [1,600] x GOMAXPROCS in [1,64] (partition check).",
     level_note=TRUST)
+TEXTS["C06"] = dict(
+    technique="fault injection in deterministic simulation: complete single-fault matrix (site x request kind x batch size x position) + seeded multi-fault sequences under concurrent load",
+    level_text="The single-fault matrix (941 cases: 20 dependency/IO/input fault sites x 5 request kinds x batch sizes {1,2,3,5,17} x every position) is enumerated completely "
+               "on every run of either tier against the real handler-to-badger stack, with faults injected through the repo's interfaces and, for the store, through "
+               "the verifhook storage points; on top of it seeded runs inject store/rules/Sign faults at yield points of 2-6 concurrent requests, pre-drawn "
+               "lookup/permission/unlock faults and a store closed under load. Oracle: signature iff SUCCEEDED at every position, no signature at any position whose "
+               "path met a fault, no panic. fault_enumeration is the right level: the property quantifies over fault sites and sequences.",
+    level_note=TRUST + " badger's WriteBatch.Flush never returns on a closed database; the simulator makes that one call fail instead of hanging (counted in evidence), see DESIGN.md section 9.")
+TEXTS["C05"] = dict(
+    technique="deterministic simulation: seeded configurations (admin-IP lists) x requests (endpoint x domain class x source address), incl. rules-fault configurations; endpoint/domain monitor",
+    level_text="Seeded search over administrator lists, source addresses and per-position domains (every 4-byte class incl. near misses x random suffix) across all five "
+               "signing endpoints of a real instance, a quarter of the runs with the rules answering UNKNOWN/FAILED: no generic signature under attester/proposer types, "
+               "no attestation/proposal signature under a foreign type (state untouched by such refusals), voluntary-exit only for a listed source. The rule itself has no "
+               "schedule in it; what simulation adds is the batch endpoints under real worker parallelism, the error-path configurations and the check on the real store.",
+    level_note=TRUST + " The schedule dimension is vacuous for this property (stated in DESIGN.md section 8); the endpoint/domain monitor (M4) also runs in every other W1/W2 check.")
 NOT_APPLICABLE = {}
